@@ -11,13 +11,13 @@ namespace vf {
 enum FOp {
   F_PUSH_C = 0, F_PUSH_M, F_EMPLACE_BACK, F_EMPLACE, F_INSERT_C, F_INSERT_M, F_INSERT_N, F_INSERT_RANGE, F_INSERT_IL, F_RESIZE, F_RESIZE_V, F_RESERVE,
   F_SHRINK, F_ASSIGN_N, F_ASSIGN_RANGE, F_ASSIGN_IL, F_COPY_ASSIGN, F_COPY_CTOR, F_CTOR_N, F_CTOR_NV, F_CTOR_RANGE, F_CTOR_IL, F_APPEND_RANGE, F_APPEND_N,
-  F_APPEND_NV, F_APPEND_IL, F_INSERT_INPUT, F_N
+  F_APPEND_NV, F_APPEND_IL, F_INSERT_INPUT, F_SWAP, F_SWAP2, F_N
 };
 inline const char *fopname(int o) {
   static const char *n[] = {"push_back(const&)", "push_back(&&)", "emplace_back", "emplace", "insert(pos,const&)", "insert(pos,&&)", "insert(pos,n,v)",
                             "insert(pos,range)", "insert(pos,il)", "resize(n)", "resize(n,v)", "reserve", "shrink_to_fit", "assign(n,v)", "assign(range)",
                             "assign(il)", "operator=(const&)", "ctor(copy)", "ctor(n)", "ctor(n,v)", "ctor(range)", "ctor(il)", "append(range)", "append(n)",
-                            "append(n,v)", "append(il)", "insert(pos,single-pass range)"};
+                            "append(n,v)", "append(il)", "insert(pos,single-pass range)", "swap(same type)", "swap2(same type)"};
   return n[o];
 }
 
@@ -111,7 +111,7 @@ struct FaultSweep : GridBase {
     const bool is_ctor = op >= F_COPY_CTOR && op <= F_CTOR_IL;
     Box<Vec> b, other;
     uintmax_t want_cap = 0;
-    uintmax_t added = (op <= F_INSERT_M) ? 1 : c;
+    uintmax_t added = (op <= F_INSERT_M) ? 1 : (op == F_SWAP || op == F_SWAP2) ? 0 : c;
     if (spare == SP_GROW) want_cap = size;
     else if (spare == SP_EXACT) want_cap = size + added;
     else if (spare == SP_MORE) want_cap = size + added + 3;
@@ -123,13 +123,15 @@ struct FaultSweep : GridBase {
       want_cap = size + need - 1;
     }
     if (want_cap == 0 && spare != SP_NATURAL) return -1;
-    bool need_src = op == F_COPY_ASSIGN || op == F_COPY_CTOR;
+    const bool is_swap = op == F_SWAP || op == F_SWAP2;
+    bool need_src = op == F_COPY_ASSIGN || op == F_COPY_CTOR || is_swap;
     if (!(is_ctor && !need_src)) {
       if (!build(b, size, want_cap)) { destroy(b); cell_end<E>("C09"); return -1; }
     }
     if (need_src) {
       // source of the copy: c selects nothing here; use a source of 4 elements (beyond / within the destination capacity depending on the state)
-      if (!build(other, op == F_COPY_CTOR ? size : 4, 0)) { destroy(b); destroy(other); cell_end<E>("C09"); return -1; }
+      // (swap / swap2: the other operand holds c elements in a buffer of natural capacity; the allocation of the capacity adjustment is the fault)
+      if (!build(other, op == F_COPY_CTOR ? size : is_swap ? c : 4, 0)) { destroy(b); destroy(other); cell_end<E>("C09"); return -1; }
     }
     uintmax_t result = size + added;
     if (op == F_RESIZE || op == F_RESIZE_V) result = c >= 3 ? size + c : (size > c ? size - c : 0);   // counts 3,5 grow; 1,2 shrink
@@ -185,6 +187,8 @@ struct FaultSweep : GridBase {
       case F_APPEND_N: pts = armed(k, [&] { vp->append(static_cast<SizeT>(c)); }); break;
       case F_APPEND_NV: pts = armed(k, [&] { vp->append(static_cast<SizeT>(c), *e); }); break;
       case F_APPEND_IL: with_il(vals, [&](std::initializer_list<E> il) { pts = armed(k, [&] { vp->append(il); }); }); break;
+      case F_SWAP: pts = armed(k, [&] { vp->swap(*other.obj); }); break;
+      case F_SWAP2: pts = armed(k, [&] { vp->swap2(*other.obj); }); break;
     }
     { MonScope mm; delete e; }
     const bool faulted = threw && (threw_fault || threw_what.find("bad_alloc") != std::string::npos);
